@@ -310,6 +310,8 @@ func runC16(c *Ctx) {
 					if b, ok := prm.Type().Underlying().(*types.Basic); ok && b.Info()&types.IsInteger != 0 {
 						chanceField = fr.Field
 					}
+				} else if harmlessChanceClamp(v, nw, f) {
+					chanceField = fr.Field
 				}
 			}
 		}
@@ -398,6 +400,9 @@ func runC16(c *Ctx) {
 			}
 			if _, isP := sv.(*ssa.Parameter); isP {
 				okStore = true
+			} else if harmlessChanceClamp(sv, nw, f) {
+				okStore = true
+				o.Site(in.Pos(), "the chance is clamped to a range that contains every draw: same drop decisions")
 			} else {
 				o.Fail(in.Pos(), "the constructor does not store the configured chance unchanged")
 			}
@@ -1851,4 +1856,106 @@ func routerDelayRules(c *Ctx, pc, rpush *ssa.Function) {
 			}
 		}
 	}
+}
+
+// harmlessChanceClamp: v is the constructor's integer parameter brought into a range [lo, hi] with lo <= 0 and
+// hi >= N, N being the bound of the draw rand.Intn(N) the filter compares the chance with: a draw is never below 0
+// and always below N, so "draw < chance" has the same truth value for the clamped and the original chance. Every
+// constant leaf must sit on an edge that established the parameter at or beyond it.
+func harmlessChanceClamp(v ssa.Value, ctor, use *ssa.Function) bool {
+	N := int64(-1)
+	instrsOfU(use, func(in ssa.Instruction) {
+		if cl, ok := in.(*ssa.Call); ok && strings.HasSuffix(callName(cl), "rand.Intn") && len(cl.Call.Args) == 1 {
+			if k, isC := constInt(cl.Call.Args[0]); isC {
+				N = k
+			}
+		}
+	})
+	if N <= 0 {
+		return false
+	}
+	isCtorParam := func(x ssa.Value) bool {
+		prm, ok := strip(x).(*ssa.Parameter)
+		if !ok || prm.Parent() != ctor {
+			return false
+		}
+		b, ok := prm.Type().Underlying().(*types.Basic)
+		return ok && b.Info()&types.IsInteger != 0
+	}
+	okLeaf := func(leaf ssa.Value, facts []fact, isP func(ssa.Value) bool) bool {
+		if isP(leaf) {
+			return true
+		}
+		c, isC := constInt(leaf)
+		if !isC {
+			return false
+		}
+		for _, ft := range facts {
+			cm, ok := normCmp(ft.Cond, ft.Val)
+			if !ok {
+				continue
+			}
+			if c <= 0 && isP(cm.X) {
+				if k, isK := constInt(cm.Y); isK && ((cm.Op == token.LSS && k <= c+1) || (cm.Op == token.LEQ && k <= c)) {
+					return true
+				}
+			}
+			if c >= N && isP(cm.Y) {
+				if k, isK := constInt(cm.X); isK && ((cm.Op == token.LSS && k+1 >= c) || (cm.Op == token.LEQ && k >= c)) {
+					return true
+				}
+			}
+		}
+		return false
+	}
+	v = strip(v)
+	switch x := v.(type) {
+	case *ssa.Phi:
+		for _, lf := range phiLeavesWithPred(x) {
+			facts := []fact{}
+			if lf.pred != nil {
+				facts = lf.edgeFacts()
+			}
+			if !okLeaf(strip(lf.v), facts, isCtorParam) {
+				return false
+			}
+		}
+		return true
+	case *ssa.Call:
+		h := helperCallee(x)
+		if h == nil || h.Signature.Results().Len() != 1 {
+			return false
+		}
+		var hp *ssa.Parameter
+		for i, a := range x.Call.Args {
+			if isCtorParam(a) && i < len(h.Params) {
+				hp = h.Params[i]
+			}
+		}
+		if hp == nil {
+			return false
+		}
+		isP := func(y ssa.Value) bool { return strip(y) == ssa.Value(hp) }
+		n := 0
+		for _, in := range findInstrs(h, isReturn) {
+			ret := in.(*ssa.Return)
+			if h.Recover != nil && ret.Block() == h.Recover {
+				continue
+			}
+			for _, rv := range retValAt(ret, 0) {
+				for _, lf := range phiLeavesWithPred(rv) {
+					facts := append([]fact{}, guardsOfBlock(ret.Block())...)
+					if lf.pred != nil {
+						facts = append(facts, lf.edgeFacts()...)
+					}
+					n++
+					if !okLeaf(strip(lf.v), facts, isP) {
+						return false
+					}
+				}
+			}
+		}
+		return n > 0
+	}
+	return false
 }
